@@ -86,6 +86,11 @@ func (s *Shadow) OnDeliver(i Info, shareOK, freshOK bool) {
 	if i.Bad || i.Hdr.Inst != s.R.Inst || i.Hdr.Height != s.Height || i.Sender.ID == s.Me {
 		return
 	}
+	if i.NonCanon {
+		// a signature over a non-canonical encoding of the header cannot be carried into anything the node builds
+		// (block proof, prepared proof, NEW_VIEW vote): such a message is not part of any certificate
+		return
+	}
 	r := s.R
 	switch i.Kind {
 	case KPP:
